@@ -20,7 +20,6 @@ func Lookup(id string) ruleFn {
 		return nil
 	}
 	return func(c *core.Ctx, r *core.Report) {
-		seam = c.InternalImpl
 		f(c, r)
 		if x := extras[id]; x != nil {
 			x(c, r)
